@@ -628,18 +628,62 @@ def r4_10(ctx):
         ("if fetched_flags:\n    if msg_key in self.sequences['Recent']:\n        no_longer_recent_msgs.add(msg_key)", "only messages that are \\Recent are queued for losing it"),
         ("if fetched_body_seen:\n    if msg_key in self.sequences['unseen']:\n        no_longer_unseen_msgs.add(msg_key)", "only unseen messages are queued for becoming \\Seen"),
         ("if (no_longer_unseen_msgs or no_longer_recent_msgs) and (not read_only):\n    ...", "flag changes are applied only when there is one and the session is not read-only"),
-        ("notifies_for = no_longer_unseen_msgs | no_longer_recent_msgs", "every changed message is announced"),
+        (("notifies_for = no_longer_unseen_msgs | no_longer_recent_msgs",
+          "notifies = [self._generate_fetch_msg_for(msg_key)[0] for msg_key in no_longer_unseen_msgs | no_longer_recent_msgs]",
+          "for msg_key in no_longer_unseen_msgs | no_longer_recent_msgs:\n    ..."), "every changed message is announced"),
         ("for msg_key in no_longer_recent_msgs:\n    self.sequences['Recent'].discard(msg_key)\n    seqs['Recent'].discard(msg_key)", "\\Recent cleared in memory and in the file's sequences alike"),
         ("for msg_key in no_longer_unseen_msgs:\n    self.sequences['unseen'].discard(msg_key)\n    seqs['unseen'].discard(msg_key)\n    if msg_key not in self.sequences['Seen']:\n        self.sequences['Seen'].add(msg_key)\n        seqs['Seen'].add(msg_key)", "unseen dropped and Seen added together, in memory and file"),
-        ("flags = []\nfor sequence in self.sequences.keys():\n    if msg_key in self.sequences[sequence]:\n        flags.append(seq_to_flag(sequence))", "the announced flag list holds exactly the sequences the message is in"),
-        ("flags_str = ' '.join(flags)\nmsg_seq_number = self._msg_key_to_idx[msg_key] + 1\nnotifies.append(f'* {msg_seq_number} FETCH (FLAGS ({flags_str}))\\r\\n')", "announced under the message's sequence number, with that flag list"),
+        # (built in place, or by the helper every other flag notification comes from - R4.8 pins that helper)
+        (("flags = []\nfor sequence in self.sequences.keys():\n    if msg_key in self.sequences[sequence]:\n        flags.append(seq_to_flag(sequence))",
+          "notifies = [self._generate_fetch_msg_for(msg_key)[0] for msg_key in no_longer_unseen_msgs | no_longer_recent_msgs]",
+          "notifies.append(self._generate_fetch_msg_for(msg_key)[0])"), "the announced flag list holds exactly the sequences the message is in"),
+        (("flags_str = ' '.join(flags)\nmsg_seq_number = self._msg_key_to_idx[msg_key] + 1\nnotifies.append(f'* {msg_seq_number} FETCH (FLAGS ({flags_str}))\\r\\n')",
+          "notifies = [self._generate_fetch_msg_for(msg_key)[0] for msg_key in no_longer_unseen_msgs | no_longer_recent_msgs]",
+          "notifies.append(self._generate_fetch_msg_for(msg_key)[0])"), "announced under the message's sequence number, with that flag list"),
         ("await self._dispatch_or_pend_notifications(notifies)", "announced to every session through the ordered channel"),
     ]
     for pat, what in checks:
-        if pm.has(pat):
+        if any(pm.has(x) for x in (pat if isinstance(pat, tuple) else (pat,))):
             ctx.ok("R4.10", where(fi), what)
         else:
             ctx.bad("R4.10", fi.module, fi.qual, what, f"FETCH's implicit flag handling lost: {what}", fi.node.lineno)
+
+
+def r4_12(ctx):
+    """The one helper every unsolicited `* n FETCH (FLAGS (...))` line comes from (STORE's answers, the resync's
+    announcements, FETCH's implicit flag changes): the flag list is the IMAP spelling of exactly the sequences the message
+    key is in (`seqs_to_flags(self.msg_sequences(key))`), the number is the key's position + 1, and both returned lines carry
+    that number and that list - the second with the UID of the same position."""
+    from .common import pm_of
+
+    p = ctx.p
+    fi = p.func("mbox.Mailbox._generate_fetch_msg_for")
+    ctx.analysed(fi)
+    pm = pm_of(p, fi)
+    checks = [
+        (("flags_str = ' '.join(seqs_to_flags(self.msg_sequences(msg_key)))",), "flag list = seqs_to_flags(msg_sequences(key))", "the flag list of an unsolicited FETCH is no longer the IMAP spelling of the sequences the message is in"),
+        (("msg_seq_number = self._msg_key_to_idx[msg_key] + 1",), "sequence number = position of the key + 1", "the unsolicited FETCH is numbered with something other than the key's position + 1: sessions are told of a flag change on another message"),
+        (("uidstr = f' UID {self.uids[msg_seq_number - 1]}'",), "UID taken at the same position", "the UID in the unsolicited FETCH is not the one at the message's position"),
+        (("return (f'* {msg_seq_number} FETCH (FLAGS ({flags_str}))\\r\\n', f'* {msg_seq_number} FETCH (FLAGS ({flags_str}){uidstr})\\r\\n')",), "both lines: `* n FETCH (FLAGS (list)[ UID u])`", "the unsolicited FETCH lines are no longer `* <n> FETCH (FLAGS (<list>)[ UID <u>])` built from the number and list computed above"),
+    ]
+    # a helper of the class that the function calls may hold a piece (the UID look-up with its IndexError handler)
+    helpers = [pm_of(p, p.functions[f"mbox.Mailbox.{call_name(c)}"]) for c in calls_in(fi.node) if isinstance(c.func, ast.Attribute) and norm(c.func.value) == "self" and f"mbox.Mailbox.{call_name(c)}" in p.functions and call_name(c) not in ("msg_sequences",)]
+    def _lines_ok() -> bool:
+        """return (f'* {n} FETCH (FLAGS ({flags}))CRLF', f'* {n} FETCH (FLAGS ({flags})<uid part>)CRLF') with the n / flags above"""
+        from ..astutil import fstring_parts, merge_consts
+        for r in [x for x in body_walk(fi.node) if isinstance(x, ast.Return) and isinstance(x.value, ast.Tuple) and len(x.value.elts) == 2]:
+            a, b = (merge_consts(fstring_parts(e) or []) for e in r.value.elts)
+            def head(pp):
+                return len(pp) >= 4 and pp[0] == "* " and norm(pp[1]) == (pm.name("msg_seq_number") or "msg_seq_number") and pp[2] == " FETCH (FLAGS (" and norm(pp[3]) == (pm.name("flags_str") or "flags_str")
+            if head(a) and head(b) and len(a) == 5 and a[4] == "))\r\n" and len(b) == 7 and b[4] == ")" and not isinstance(b[5], str) and b[6] == ")\r\n":
+                return True
+        return False
+
+    for pats, okmsg, badmsg in checks:
+        if ("return (" in pats[0] and _lines_ok()) or any(pm.has(x) for x in pats) or ("UID" in pats[0] and "return" not in pats[0] and any(h.has("return f' UID {self.uids[n - 1]}'") or h.has("uidstr = f' UID {self.uids[n - 1]}'") for h in helpers)):
+            ctx.ok("R4.12", where(fi), okmsg)
+        else:
+            ctx.bad("R4.12", fi.module, fi.qual, pats[0], badmsg, fi.node.lineno)
 
 
 def r4_11(ctx):
@@ -720,6 +764,7 @@ def run(ctx):
     from . import c05 as _c05
     ctx.do(_c05.r5_3)  # an expunged message's key leaves every flag set (or the next message with that key inherits them)
     ctx.do(r4_11)
+    ctx.do(r4_12)
     from . import c15 as _c15b
     ctx.do(_c15b.r15_4)  # STORE addresses exactly the messages its set denotes
     from . import c03 as _c03p
